@@ -808,22 +808,43 @@ func runC04(c *Ctx) {
 						}
 					}
 				}
-				good := len(sends) == 1 && resultHasOnlyErr(sends[0].X) && chanParamOf(put) != nil && sends[0].Chan == ssa.Value(chanParamOf(put)) && !body.Dominates(upd.Block())
+				// The arm must end the call: a fall-through into the registration is
+				// the same as no test at all, so reachability, not dominance, decides.
+				good := len(sends) == 1 && resultHasOnlyErr(sends[0].X) && chanParamOf(put) != nil && sends[0].Chan == ssa.Value(chanParamOf(put)) && !blockReaches(body, upd.Block())
 				c.check(good, "R3", "closed arm notifies once and refuses", p.Pos(body.Instrs[0].Pos()), "one error result to the caller's channel, no registration", "after close, putChannel does not answer the caller exactly once with an error (or still registers the request)")
 				// returns false there
 				retFalse := true
+				nret := 0
 				for _, b := range put.Blocks {
-					if body.Dominates(b) {
-						for _, in := range b.Instrs {
-							if r, ok := in.(*ssa.Return); ok && isReturn(in) {
-								for _, l := range leavesOf(r.Results[0]) {
-									if l.Kind != leafConst || l.V.(*ssa.Const).Value.String() != "false" {
-										retFalse = false
-									}
+					if b != body && !blockReaches(body, b) {
+						continue
+					}
+					for _, in := range b.Instrs {
+						r, ok := in.(*ssa.Return)
+						if !ok || !isReturn(in) || len(r.Results) == 0 {
+							continue
+						}
+						nret++
+						vals := []ssa.Value{r.Results[0]}
+						if phi, ok := r.Results[0].(*ssa.Phi); ok && phi.Block() == b {
+							vals = nil
+							for i, pred := range b.Preds {
+								if pred == body || blockReaches(body, pred) {
+									vals = append(vals, phi.Edges[i])
+								}
+							}
+						}
+						for _, v := range vals {
+							for _, l := range leavesOf(v) {
+								if l.Kind != leafConst || l.V.(*ssa.Const).Value == nil || l.V.(*ssa.Const).Value.String() != "false" {
+									retFalse = false
 								}
 							}
 						}
 					}
+				}
+				if nret == 0 {
+					retFalse = false
 				}
 				c.check(retFalse, "R3", "closed arm returns false", p.Pos(body.Instrs[0].Pos()), "dispatchRequest then skips the write", "putChannel reports success after close")
 			}
